@@ -15,5 +15,7 @@ CONSTANTS
   PreCheckClosed = FALSE
   NilPacketSock = FALSE
   CloseWaits = FALSE
+  ErrAware = TRUE
+  AcceptErrors = 0
 INVARIANTS DumpInv
 CHECK_DEADLOCK FALSE
